@@ -28,9 +28,14 @@ RULE = ("Hypothesis RuleBasedStateMachine: one Packer per history over a generat
         "The flat argument of construct_from_tensor is supplied contiguous, as an offset slice, with stride 2 or as a matrix column; "
         "structures carry mutable non-tensor content (sets, bytearrays, numpy arrays, lists inside tuples) that the caller edits in "
         "the rebuilt structure between rebuilds; the caller also edits its own original object (values replaced, containers grown) at any "
-        "point after handing it over - the Packer keeps the structure it was given; attribute objects include callable ones.")
+        "point after handing it over - the Packer keeps the structure it was given; attribute objects include callable ones. "
+        "Round 5: a container may be referenced a second time further on in the structure (node 'ref'; <= 24 slots with the repeated listing): "
+        "the listing and the refill must walk the same traversal, so every slot after the second occurrence still holds its own tensor.")
 ASSUMPTIONS = [
-    "containers are tree-shaped (a list/dict/object appears once); only tensors are aliased",
+    "a container (list/dict/object) may be reachable through two paths of the structure (a second reference to a container completed "
+    "earlier in the build order: no cycles); the traversal lists its tensors at every occurrence, and for the non-unique interfaces the "
+    "caller supplies the same tensor for the traversal positions of one physical slot (otherwise 'position i holds the i-th supplied "
+    "tensor' cannot hold for both positions); nothing is asserted about whether the rebuilt structure shares the container the same way",
     "tensors inside tuples are opaque to Packer (documented traversal: list elements, dict values, __dict__)",
     "construct_* called before the matching get_* must raise (RuntimeError or AssertionError accepted)",
 ]
@@ -58,7 +63,10 @@ OBJ_TYPES = (Obj, Obj2, ObjCall)
 
 # ------------------------------------------------------------------ building / model
 
-def build(tree, pool):
+def build(tree, pool, reg=None):
+    """reg: the containers completed so far, in the order in which expand_refs numbered them (node["cid"]); a node {"t": "ref"} is the
+    SAME container object as the completed container number node["idx"] (a container reachable through two paths of the structure)"""
+    reg = [] if reg is None else reg
     t = tree["t"]
     if t == "T":
         return pool[tree["i"]]
@@ -66,18 +74,83 @@ def build(tree, pool):
         return tree["v"]
     if t == "mleaf":
         return build_mleaf(tree)
-    if t == "list":
-        return [build(c, pool) for c in tree["c"]]
+    if t == "ref":
+        return reg[tree["idx"]]
     if t == "tuple":
-        return tuple(build(c, pool) for c in tree["c"])
-    if t == "dict":
-        return {k: build(c, pool) for k, c in zip(tree["k"], tree["c"])}
-    if t == "obj":
+        return tuple(build(c, pool, reg) for c in tree["c"])
+    if t == "list":
+        o = [build(c, pool, reg) for c in tree["c"]]
+    elif t == "dict":
+        o = {k: build(c, pool, reg) for k, c in zip(tree["k"], tree["c"])}
+    elif t == "obj":
         o = ObjCall() if tree.get("callable") else Obj() if len(tree["k"]) % 2 == 0 else Obj2()
         for k, c in zip(tree["k"], tree["c"]):
-            setattr(o, k, build(c, pool))
-        return o
-    raise ValueError(t)
+            setattr(o, k, build(c, pool, reg))
+    else:
+        raise ValueError(t)
+    if "cid" in tree:
+        assert tree["cid"] == len(reg)
+        reg.append(o)
+    return o
+
+
+MAX_SLOTS_WITH_REFS = 24
+
+
+def expand_refs(tree):
+    """Resolve the generated nodes {"t": "ref", "to": k}: the k-th (modulo) container completed before this point of the build order,
+    preferring containers that hold at least one tensor slot, is referenced a second time; the node gets the referenced subtree as
+    "sub" (its slots are listed again by the documented traversal). Without a completed container, or beyond 24 slots, the node becomes
+    a plain leaf. Containers are numbered in completion order ("cid"). Trees without ref nodes come back unchanged apart from "cid"."""
+    done = []
+    nslots = [0]
+
+    def walk(node):
+        t = node["t"]
+        if t == "T":
+            nslots[0] += 1
+            return node
+        if t == "ref":
+            cands = [i for i, d in enumerate(done) if _count_slots(d) > 0] or list(range(len(done)))
+            if not cands:
+                return {"t": "leaf", "v": None}
+            idx = cands[node["to"] % len(cands)]
+            if nslots[0] + _count_slots(done[idx]) > MAX_SLOTS_WITH_REFS:
+                return {"t": "leaf", "v": None}
+            nslots[0] += _count_slots(done[idx])
+            return {"t": "ref", "idx": idx, "sub": done[idx]}
+        if t in ("list", "dict", "obj"):
+            new = dict(node)
+            new["c"] = [walk(c) for c in node["c"]]
+            new["cid"] = len(done)
+            done.append(new)
+            return new
+        return node
+    return walk(tree)
+
+
+def has_refs(tree):
+    return tree["t"] == "ref" or (tree["t"] in ("list", "dict", "obj") and any(has_refs(c) for c in tree["c"]))
+
+
+def physical_slots(tree, obj, out):
+    """(id of the container, key) of every tensor slot in traversal order: two traversal positions with the same entry are one physical
+    slot (inside a container that is referenced twice)"""
+    t = tree["t"]
+    if t == "ref":
+        return physical_slots(tree["sub"], obj, out)
+    if t == "list":
+        for i, c in enumerate(tree["c"]):
+            out.append((id(obj), i)) if c["t"] == "T" else physical_slots(c, obj[i], out)
+    elif t == "dict":
+        for k, c in zip(tree["k"], tree["c"]):
+            out.append((id(obj), k)) if c["t"] == "T" else physical_slots(c, obj[k], out)
+    elif t == "obj":
+        for k, c in zip(tree["k"], tree["c"]):
+            out.append((id(obj), k)) if c["t"] == "T" else physical_slots(c, obj.__dict__[k], out)
+    elif t == "T":
+        out.append((0, "root"))
+    return out
 
 
 def build_mleaf(tree):
@@ -178,6 +251,8 @@ def model_slots(tree, out):
     t = tree["t"]
     if t == "T":
         out.append(tree["i"])
+    elif t == "ref":
+        model_slots(tree["sub"], out)       # the traversal descends into a container every time it meets it
     elif t in ("list", "dict", "obj"):
         for c in tree["c"]:
             model_slots(c, out)
@@ -240,6 +315,8 @@ def container_ids(obj, out):
 def compare(tree, new, orig, slots_expected, cursor, by_identity, errs, path="$"):
     """walk the rebuilt structure against the tree description"""
     t = tree["t"]
+    if t == "ref":
+        return compare(tree["sub"], new, orig, slots_expected, cursor, by_identity, errs, path + "<shared>")
     if t == "T":
         j = cursor[0]
         cursor[0] += 1
@@ -321,9 +398,10 @@ def make_pool(pool_desc):
 
 def run_case(case):
     from xitorch import Packer
-    tree, pool_desc, ops = case["struct"], case["pool"], case["ops"]
+    tree, pool_desc, ops = expand_refs(case["struct"]), case["pool"], case["ops"]
     pool = make_pool(pool_desc)
     obj = build(tree, pool)
+    shared = has_refs(tree)
     snap0 = snapshot(obj, [])
     orig_containers = container_ids(obj, set())
     slot_pool = model_slots(tree, [])                   # pool index per slot
@@ -337,6 +415,14 @@ def run_case(case):
         inverse.append(first[pi])
     uniq_tensors = [all_tensors[j] for j in uniq_idx]
     nslots = len(slot_pool)
+    # a container referenced twice is listed twice: its traversal positions are the same physical slots. For the non-unique interfaces
+    # the caller's list is made consistent with that (the same tensor for the positions of one physical slot) -- otherwise "position i
+    # holds the i-th supplied tensor" cannot hold for both positions, whatever the implementation
+    pslots = physical_slots(tree, obj, [])
+    assert len(pslots) == nslots
+    first_phys = {}
+    phys = [first_phys.setdefault(ps, j) for j, ps in enumerate(pslots)]
+    nshared_slots = sum(1 for j in range(nslots) if phys[j] != j)
 
     packer = Packer(obj)
     got_list = {True: False, False: False}
@@ -391,6 +477,8 @@ def run_case(case):
             mode = op[2]
             exp = expected_list(u)
             sup = fresh_like(exp)
+            if not u:
+                sup = [sup[phys[j]] for j in range(len(sup))]
             if mode == "short":
                 if len(sup) == 0:
                     mode = "long"
@@ -440,6 +528,8 @@ def run_case(case):
             mode = op[2]
             exp = expected_list(u)
             sup = fresh_like(exp)
+            if not u:
+                sup = [sup[phys[j]] for j in range(len(sup))]
             if len(exp) == 0:
                 a = torch.zeros(0)
                 must_fail = not got_list[u]
@@ -523,6 +613,9 @@ def run_case(case):
     labels = ["slots=%s" % ("0" if nslots == 0 else "1" if nslots == 1 else "2-4" if nslots <= 4 else "5+"),
               "aliased" if nalias else "noalias", "root=" + tree["t"],
               "caller_edited_result=%s" % (n_mutated > 0), "caller_edited_original=%s" % (n_orig_edits > 0)] + ["flat_layout=" + x for x in sorted(layouts_used)]
+    labels.append("shared_container=%s" % ("no" if not shared else "without_slots" if nshared_slots == 0 else
+                                           "slots_follow" if any(phys[j] == j and j > min(k for k in range(nslots) if phys[k] != k) for j in range(nslots))
+                                           else "last"))
     nontrivial = n_ok_construct > 0 and nslots >= 2
     return ok(labels=labels, nontrivial=nontrivial)
 
@@ -531,6 +624,8 @@ def extract_by_tree(tree, new, out):
     t = tree["t"]
     if t == "T":
         out.append(new)
+    elif t == "ref":
+        extract_by_tree(tree["sub"], new, out)
     elif t == "list":
         for i, c in enumerate(tree["c"]):
             extract_by_tree(c, new[i], out)
@@ -560,6 +655,8 @@ _leaf = st.one_of(
               st.lists(st.integers(0, 5), max_size=3)),
 )
 _keys = st.sampled_from(["a", "b", "c", "d", "e", "w", "x1", "_p"])
+# a second reference to a container completed earlier in the build order (resolved by expand_refs)
+_ref = st.builds(lambda k: {"t": "ref", "to": k}, st.integers(0, 5))
 
 
 def _containers(children):
@@ -603,10 +700,12 @@ _tensor_leaf = st.builds(lambda i: {"t": "T", "i": i}, st.integers(0, NPOOL - 1)
 @st.composite
 def _tree(draw, depth):
     if depth == 0:
-        return draw(st.one_of(_tensor_leaf, _tensor_leaf, _tensor_leaf, _leaf))
-    kind = draw(st.sampled_from(["list", "dict", "obj", "list", "dict", "obj", "T", "leaf"]))
+        return draw(st.one_of(_tensor_leaf, _tensor_leaf, _tensor_leaf, _leaf, _ref))
+    kind = draw(st.sampled_from(["list", "dict", "obj", "list", "dict", "obj", "T", "leaf", "ref"]))
     if kind == "T":
         return draw(_tensor_leaf)
+    if kind == "ref":
+        return draw(_ref)
     if kind == "leaf":
         return draw(_leaf)
     n = draw(st.sampled_from([0, 1, 2, 2, 3, 3, 4]))
